@@ -34,6 +34,7 @@ const (
 	styleLossy
 	styleEdge
 	styleLong
+	styleCap
 )
 
 type runner struct {
@@ -53,6 +54,7 @@ type runner struct {
 	bloat   int64
 	started bool
 	blast   int // remaining sends of a burst (send as fast as window and pacer allow)
+	cap     *capPlan // styleCap: the scripted part of the case (nil once it is over)
 	back    bool  // this burst is stamped with strictly decreasing times (a non-monotonic clock reading per packet)
 	sendT   int64 // time stamp of the next send (0: now)
 	lastT   int64 // time stamp of the previous send
@@ -71,7 +73,12 @@ func (rn *runner) mk(mds int64, zeroRTT bool) {
 func newRunner(r *vh.Rand) vh.Runner {
 	rn := &runner{mds: 1252}
 	rn.mk(1252, false)
-	rn.style = r.Pick(40, 18, 22, 12, 8)
+	// the cap style is expensive (tens of thousands of acknowledgements per case): about 1 case in 100
+	if r.Chance(1) {
+		rn.style = styleCap
+	} else {
+		rn.style = r.Pick(40, 18, 22, 12, 8)
+	}
 	rn.now = 1 + r.Range(0, 3_600_000_000_000)
 	rn.baseRTT = []int64{100_000, 1_000_000, 10_000_000, 50_000_000, 300_000_000}[r.Intn(5)]
 	return rn
@@ -208,6 +215,135 @@ func (rn *runner) genHyStartRound(r *vh.Rand) string {
 	return q[0]
 }
 
+// The maximum window reached and held in CONGESTION AVOIDANCE.  The window is 10000 packets at most, so
+// no random history gets there except through slow start; this script does it with few operation
+// lines: (1) slow start with large ACK frames (priorInFlight = the window: limited) up to `stop` packets
+// below the maximum, optionally with an MTU step on the way so that the window is no multiple of the
+// datagram size when it passes the maximum; (2) hybrid slow start sees a delay increase (eight RTT
+// samples well above the minimum) and ends slow start WITHOUT a loss, so the window stays where it is;
+// (3) `windows` more windows of acknowledgements in Reno congestion avoidance (one packet of growth per
+// window of ACKs), in ACK frames of 1..4000 packets, with queries, single sends and no-op events in
+// between.  Phase (3) is where a missing "already at the maximum" check in the congestion-avoidance
+// branch shows: monitors no_growth_at_max and cwnd_upper_bound.
+type capPlan struct {
+	mds0    int64
+	mtuAt   int64 // raise the datagram size when the window passes this many packets (0: never)
+	mtuTo   int64
+	stop    int64 // leave slow start this many packets below the maximum (0: at or above it)
+	acksCA  int64 // acknowledgements still to deliver in congestion avoidance
+	phase   int
+	tries   int
+	maxStep int64
+}
+
+func newCapPlan(r *vh.Rand) *capPlan {
+	p := &capPlan{mds0: []int64{1200, 1252, 1280, 1452, r.Range(1200, 1500)}[r.Intn(5)]}
+	if r.Chance(50) {
+		p.mtuAt = r.Range(40, 9990)
+		p.mtuTo = p.mds0 + []int64{1, 48, 200, r.Range(1, 300)}[r.Intn(4)]
+	}
+	p.stop = []int64{0, 0, 0, 1, 1, 2}[r.Intn(6)]
+	p.acksCA = (p.stop+2)*10001 + r.Range(10, 6000)
+	p.maxStep = []int64{4000, 4000, 2500, 1000}[r.Intn(4)]
+	return p
+}
+
+const maxCwndPackets = protocol.MaxCongestionWindowPackets
+
+// one ACK frame of n full-size packets while window-limited: the sent line now, the acked line queued
+func (rn *runner) capBatch(r *vh.Rand, n int64) string {
+	first := rn.nextPN
+	rn.nextPN += n
+	rn.now += r.Range(1, rn.baseRTT)
+	prior := rn.cwnd()
+	if r.Chance(30) { // within three packets of the window: still limited
+		prior -= r.Range(0, 3) * rn.mds
+	} else if r.Chance(20) {
+		prior += r.Range(0, 10) * rn.mds // more in flight than the window (after an earlier reduction / probe packets)
+	}
+	if prior < 0 {
+		prior = 0
+	}
+	rn.queue = append(rn.queue, fmt.Sprintf("acked %d %d %d %d %d", first, rn.mds, prior, rn.now, n))
+	return fmt.Sprintf("sent %d %d %d 1", rn.now, rn.nextPN-1, rn.mds)
+}
+
+func (rn *runner) genCap(r *vh.Rand) string {
+	p := rn.cap
+	wp := rn.cwnd() / rn.mds // window in packets
+	switch p.phase {
+	case 0: // the estimator's minimum RTT
+		p.phase = 1
+		rn.queue = append(rn.queue, "exitss")
+		return fmt.Sprintf("rtt %d 0", rn.baseRTT)
+	case 1: // slow start
+		if !rn.s.InSlowStart() { // left early (not expected): go on with what there is
+			p.phase = 3
+			return "exitss"
+		}
+		target := int64(maxCwndPackets) - p.stop
+		if p.mtuAt != 0 && wp >= p.mtuAt {
+			p.mtuAt = 0
+			rn.mds = p.mtuTo
+			return fmt.Sprintf("mds %d", rn.mds)
+		}
+		if p.mtuAt != 0 && p.mtuAt < target {
+			target = p.mtuAt
+		}
+		if rn.cwnd() >= (int64(maxCwndPackets)-p.stop)*rn.mds {
+			p.phase = 2
+			return fmt.Sprintf("cansend %d", rn.cwnd())
+		}
+		// in slow start every acknowledgement adds one datagram size
+		n := (target*rn.mds - rn.cwnd() + rn.mds - 1) / rn.mds
+		if n > p.maxStep {
+			n = r.Range(p.maxStep/2, p.maxStep)
+		}
+		if n < 1 {
+			n = 1
+		}
+		return rn.capBatch(r, n)
+	case 2: // hybrid slow start: a round whose eight first RTT samples are far above the minimum
+		if !rn.s.InSlowStart() {
+			p.phase = 3
+			return fmt.Sprintf("cansend %d", rn.cwnd()-1)
+		}
+		p.tries++
+		if p.tries > 40 {
+			return ""
+		}
+		rn.now += 1000
+		rn.queue = append(rn.queue, "exitss")
+		return fmt.Sprintf("rtt %d 0", rn.baseRTT*2+40_000_000+r.Range(0, 1_000_000))
+	default: // congestion avoidance at / just below the maximum
+		if p.acksCA <= 0 {
+			return ""
+		}
+		switch r.Pick(70, 10, 8, 6, 6) {
+		case 0:
+			n := r.Range(1, p.maxStep)
+			if r.Chance(15) {
+				n = r.Range(1, 30)
+			}
+			p.acksCA -= n
+			return rn.capBatch(r, n)
+		case 1:
+			return rn.genQuery(r)
+		case 2:
+			rn.now += r.Range(0, rn.baseRTT)
+			return rn.genSend(r, true)
+		case 3:
+			return "exitss"
+		default:
+			// an RTT sample; or a loss report for a packet of a window that was already reduced (none was: the mark is -1)
+			if r.Bool() {
+				return fmt.Sprintf("rtt %d %d", rn.baseRTT+r.Range(0, rn.baseRTT), r.Range(0, 1_000_000))
+			}
+			return fmt.Sprintf("mds %d", rn.mds) // SetMaxDatagramSize with the current size: no change
+		}
+	}
+}
+
 func (rn *runner) genLoss(r *vh.Rand) string {
 	if len(rn.out) == 0 {
 		return fmt.Sprintf("lost %d %d %d", r.Range(-1, rn.nextPN+2), rn.mds, rn.bif)
@@ -334,6 +470,11 @@ func (rn *runner) GenOp(r *vh.Rand, i int) string {
 	}
 	if !rn.started {
 		rn.started = true
+		if rn.style == styleCap {
+			rn.cap = newCapPlan(r)
+			rn.mds = rn.cap.mds0
+			return fmt.Sprintf("new %d 0", rn.mds)
+		}
 		if rn.style == styleEdge {
 			rn.mds = pick(r, edgeMDS)
 		} else {
@@ -345,10 +486,16 @@ func (rn *runner) GenOp(r *vh.Rand, i int) string {
 		}
 		return fmt.Sprintf("new %d %d", rn.mds, z)
 	}
+	if rn.style == styleCap && rn.cap != nil {
+		if op := rn.genCap(r); op != "" {
+			return op
+		}
+		rn.cap = nil // the script is over: carry on like the long style, at the maximum window
+	}
 	switch rn.style {
 	case styleEdge:
 		return rn.genEdge(r)
-	case styleLong:
+	case styleLong, styleCap:
 		// ramp the window with large ACK frames (priorInFlight = the window: limited), then losses and
 		// congestion avoidance at large windows
 		switch r.Pick(20, 40, 8, 6, 12, 4, 10) {
